@@ -43,7 +43,9 @@ func runC13(c *Ctx) {
 		g, ok := v.(*ssa.Global)
 		return ok && g.Name() == "ManifestFile" && g.Pkg.Pkg.Path() == endorsePkg
 	}
-	isWrite := func(call ssa.CallInstruction) bool { return invokeIs(call, endorsePkg, "ChangeOps", "WriteOrCreateFiles") }
+	isWrite := func(call ssa.CallInstruction) bool {
+		return invokeIs(call, endorsePkg, "ChangeOps", "WriteOrCreateFiles")
+	}
 	writeKind := func(call ssa.CallInstruction) string {
 		args := call.Common().Args
 		if len(args) < 2 {
